@@ -120,6 +120,24 @@ class Exec:
                         raise OSError("injected: pointer write failed")
 
             self.ip.before.append(fault_hook)
+            rfault = {"left": 1 if case.get("reader_fault") else 0}
+
+            def reader_fault_hook(op: Any) -> None:
+                # one transient I/O error on a READER's read of the version pointer (not a missing file: EIO)
+                if rfault["left"] and op.phase == "before" and op.path == HINT and \
+                        op.name in ("local.read_file", "local.exists", "local.open_file"):
+                    me = sched.me()
+                    if me is not None and me.name.startswith("R"):
+                        if case["reader_fault"] == "exists" and op.name != "local.exists":
+                            return
+                        if case["reader_fault"] == "read" and op.name == "local.exists":
+                            return
+                        rfault["left"] -= 1
+                        sched.count("reader_faults")
+                        import errno as _errno
+                        raise OSError(_errno.EIO, "injected: transient I/O error reading the version pointer")
+
+            self.ip.before.append(reader_fault_hook)
             for i, api in enumerate(case["readers"]):
                 t = shared if shared is not None else (rw0 if rw0 is not None else ds.load_table(inst.table_path))
                 handles.append(t)
@@ -159,6 +177,7 @@ class Exec:
             finally:
                 self.ip.after.remove(flips.l1_after)
                 self.ip.before.remove(fault_hook)
+                self.ip.before.remove(reader_fault_hook)
             monitor(sched, None)
             viol = list(self._judge(clog.events, versions, sched.nstep)) if outcome == "ok" else []
             if outcome == "ok":
@@ -250,6 +269,8 @@ class Exec:
         for e in events:
             if not e["actor"].startswith("R"):
                 continue
+            if e["outcome"] == "raised" and "injected: transient I/O error" in str(e.get("error")):
+                continue        # the read that met the injected pointer fault may fail; it must not invent a version
             if e["outcome"] == "raised":
                 yield (f"read-raised:{e['op']}", f"{e['actor']} {e['op']} raised while only writers were active: {e.get('error')}")
                 continue
@@ -323,6 +344,12 @@ class C02(Check):
                 for wr in (["append"] if tier == "quick" else ["append", "delete", "multi"]):
                     yield {"mode": "dfs", "readers": [api], "writers": [wr], "topology": "separate", "backend": "s3",
                            "k": 1, "shard": 0, "nshards": 1, "nreads": 2, "weather": w}
+        # one transient I/O error on the reader's own access to the pointer while a writer is mid-commit
+        for rf in ("read", "exists"):
+            for api in (["scan", "row_count"] if tier == "quick" else READ_APIS):
+                for wr in (["append", "failed_commit"] if tier == "quick" else ["append", "multi", "delete", "failed_commit"]):
+                    yield {"mode": "dfs", "readers": [api], "writers": [wr], "topology": "separate", "backend": "local",
+                           "k": 1 if tier == "quick" else 2, "shard": 0, "nshards": 1, "nreads": 2, "reader_fault": rf}
         # readers racing the FIRST commit of an empty table
         for api in READ_APIS:
             for w in ("append", "multi"):
